@@ -63,17 +63,14 @@ Proof.
   rewrite andb_true_iff, arg_slot_eqb_eq, IH. split; [intros [-> ->]; reflexivity | intros E; inversion E; auto].
 Qed.
 
-(* the one thing match_rule_equal does not look at *)
-Definition ns_values_agree (a b : rule) : Prop :=
-  match r_path a, r_path b with Some (true, x), Some (true, y) => x = y | _, _ => True end.
-
-Theorem rule_equal_eq a b : ns_values_agree a b -> (rule_equal a b = true <-> a = b).
+(* since commit 5996fca: equal exactly when they are the same rule *)
+Theorem rule_equal_eq a b : rule_equal a b = true <-> a = b.
 Proof.
-  intros Hns. split.
+  split.
   - unfold rule_equal. rewrite !andb_true_iff. intros [[[[[[[[Hf Ho] Ht] Hm] Hp] Hi] Hs] Hd] Ha].
     apply N.eqb_eq in Hf. apply flags_present in Hf. apply N.eqb_eq in Ho. apply args_eqb_eq in Ha.
     destruct a as [ao at_ ai am as_ ad ap ae aa], b as [bo bt bi bm bs bd bp be ba].
-    unfold present, ns_values_agree in *. cbn [r_owner r_type r_iface r_member r_sender r_dest r_path r_eaves r_args] in *.
+    unfold present in *. cbn [r_owner r_type r_iface r_member r_sender r_dest r_path r_eaves r_args] in *.
     injection Hf as F1 F2 F3 F4 F5 F6 F7 F8 F9. subst.
     assert (at_ = bt) as ->.
     { destruct at_, bt; simpl in *; try discriminate; [apply N.eqb_eq in Ht; now subst | reflexivity]. }
@@ -86,16 +83,15 @@ Proof.
     assert (ad = bd) as ->.
     { destruct ad, bd; simpl in *; try discriminate; [apply bytes_eqb_eq in Hd; now subst | reflexivity]. }
     assert (ap = bp) as ->.
-    { destruct ap as [[[|] x]|], bp as [[[|] y]|]; simpl in *; try discriminate; try reflexivity.
-      - now subst.
-      - apply bytes_eqb_eq in Hp. now subst. }
+    { destruct ap as [[[|] x]|], bp as [[[|] y]|]; simpl in *; try discriminate; try reflexivity;
+        apply bytes_eqb_eq in Hp; now subst. }
     reflexivity.
   - intros ->. unfold rule_equal. rewrite !andb_true_iff. repeat split.
     + apply N.eqb_refl.
     + apply N.eqb_refl.
     + destruct (r_type b); simpl; [apply N.eqb_refl | reflexivity].
     + destruct (r_member b); simpl; [apply bytes_eqb_refl | reflexivity].
-    + destruct (r_path b) as [[[|] x]|]; simpl; try reflexivity. apply bytes_eqb_refl.
+    + destruct (r_path b) as [[[|] x]|]; simpl; try reflexivity; apply bytes_eqb_refl.
     + destruct (r_iface b); simpl; [apply bytes_eqb_refl | reflexivity].
     + destruct (r_sender b); simpl; [apply bytes_eqb_refl | reflexivity].
     + destruct (r_dest b); simpl; [apply bytes_eqb_refl | reflexivity].
@@ -103,7 +99,7 @@ Proof.
 Qed.
 
 Lemma rule_equal_refl a : rule_equal a a = true.
-Proof. apply rule_equal_eq; [|reflexivity]. unfold ns_values_agree. destruct (r_path a) as [[[|] x]|]; auto. Qed.
+Proof. now apply rule_equal_eq. Qed.
 
 (* equal rules live in the same pool, so looking only in the value's pool loses nothing *)
 Lemma rule_equal_same_pool r v : rule_equal r v = true -> in_pool (r_type v) (r_iface v) r = true.
@@ -343,4 +339,35 @@ Proof.
       unfold full. destruct (rule_matches ns r (Some c) (Some a) m false) as [b|] eqn:Em.
       * rewrite Forall_forall in Hok. rewrite (matches_spec ns r (Some c) (Some a) m b) in Hs; [congruence | apply Hok; assumption | exact Em].
       * exfalso. exact (Hnf r Hr1 Em).
+Qed.
+
+(* ---- the matcher is total (commit c577f29): no message and no rule set make dispatch fault --------------- *)
+Lemma rfl_total ns s a m : forall rules seen acc, recipients_from_list ns rules s a m seen acc <> None.
+Proof.
+  induction rules as [|r rest IH]; intros seen acc; simpl; [discriminate|].
+  pose proof (no_fault ns r s a m true) as Hn.
+  destruct (rule_matches ns r s a m true) as [[|]|]; [|apply IH|congruence].
+  destruct (existsb (N.eqb (r_owner r)) seen); apply IH.
+Qed.
+
+Theorem get_recipients_total ns mk s a m : get_recipients ns mk s a m <> None.
+Proof.
+  unfold get_recipients.
+  repeat match goal with
+         | |- match recipients_from_list ?n ?l ?s ?a ?m ?x ?y with _ => _ end <> None =>
+             let E := fresh in pose proof (rfl_total n s a m l x y) as E;
+             destruct (recipients_from_list n l s a m x y) as [[? ?]|]; [clear E|congruence]
+         end.
+  discriminate.
+Qed.
+
+Theorem dispatch_total ns mk c m : dispatch ns mk c m <> None.
+Proof.
+  unfold dispatch. destruct (m_dest m) as [d|].
+  - destruct (bytes_eqb d S_org_freedesktop_DBus); [discriminate|].
+    destruct (owner_of ns d) as [a|]; [|discriminate].
+    destruct (negb (valid_type (m_type m))); [discriminate|].
+    pose proof (get_recipients_total ns mk (Some c) (Some a) m). destruct (get_recipients ns mk (Some c) (Some a) m); [discriminate|congruence].
+  - destruct (m_type m =? DBUS_MESSAGE_TYPE_SIGNAL); [|discriminate].
+    pose proof (get_recipients_total ns mk (Some c) None m). destruct (get_recipients ns mk (Some c) None m); [discriminate|congruence].
 Qed.
